@@ -417,6 +417,10 @@ def make_f(name, rng, bounds):
         return lambda x: 1.0 if x > 0.3 else 0.0
     if name == "isqrt03":
         return lambda x: 1 / math.sqrt(abs(x - 0.3)) if x != 0.3 else math.inf
+    if name == "three_peaks":  # constant + narrow peaks each seen by one rule only + a gentle smooth term on the left half
+        peaks = [(0.8535533905932737, 3.0), (0.5366116523516815, 1.0), (0.9633883476483185, 1.0)]
+        return lambda x: (1.0 + (1e-3 * (0.5 - x) ** 3 * math.exp(3 * x) if x < 0.5 else 0.0)
+                          + sum(amp * math.exp(-(((x - x0) / 1e-6) ** 2)) for x0, amp in peaks))
     if name == "isqrt_left_end":
         return lambda x: 1 / math.sqrt(x - a) if x > a else math.inf
     if name == "smooth":
